@@ -283,6 +283,9 @@ class C10(core.Property):
 
     self.Broken = Broken
     self._tmpdir = tempfile.mkdtemp(prefix='c10_')
+    import atexit
+    import shutil
+    atexit.register(shutil.rmtree, self._tmpdir, ignore_errors=True)
 
   def mk_opt(self, spec):
     kind, lr, m = spec
